@@ -331,6 +331,21 @@ def add_swap_trio(pool: dict[str, Any]) -> None:
 	pool['initial'] = {**pool.get('initial', {}), 'src.sc': 1}
 
 
+def example_pool() -> dict[str, Any]:
+	"""The repository's own example project (example/json.py + example/FW/string.py): real code with shapes the generator lacks
+	(decorators, embedded C++ types, class variables, closures, 10 k tree entries, 363 symbols). Sources are read from the working tree."""
+	import os
+	from tranpsim import boot
+	mods = ['example.json', 'example.FW.string']
+	variants = {}
+	for m in mods:
+		with open(os.path.join(boot.REPO, module_relpath(m)), 'rb') as f:
+			src = f.read().decode('utf-8')
+		imports = ['example.FW.string'] if m == 'example.json' else []
+		variants[m] = [{'src': src, 'imports': imports, 'note': 'repo'}, {'src': src + '\n\ndef verif_extra_fn(n: int) -> int:\n\treturn n + 1\n', 'imports': imports, 'note': 'repo+fn'}]
+	return {'shape': 'example', 'modules': mods, 'core': list(mods), 'variants': variants, 'edges': [['example.json', 'example.FW.string']]}
+
+
 FIXED_POOL_SEEDS = [11, 12, 13, 14]
 
 
